@@ -1,5 +1,117 @@
+import SamVerif.Model.Incremental
 import Driver.Util
-/-! Line-protocol driver for property C10 (model side). Not implemented yet. -/
+/-! Protocol `lsphist` (C10), model side: replays update / rename / remove histories through
+`SamVerif.Incremental` with `Mod = String`, `Content = Nat` (content id), `Sig = String`
+(`"<m>~<cid>"` = `build_module_signature(m, parse(cid as m))`, `"!"` = builtin signature) and
+`Err = String` (tokens).
+
+The checker parameter is a **table**: `tab <callkey> <k:tok,...>` lines give the real checker's
+answer for a call `(m, cid, global_cx)`; a call that is not in the table answers with the single
+token `CALL:<callkey>` located in `m`, which tells the orchestration which real calls to evaluate
+(`harness c10: chk`).  Parse errors of content `cid` are the tokens `P.<cid>.<i>`.
+
+Lines: `def <cid> <nperr> <imports,|->`, `tab <key> <val>`, `univ <names…>`, `new m=cid …`,
+`upd m=cid …`, `ren a:b …`, `rem m …`, `aff m …`.  Answer of a state-changing line:
+`<name>=<+|-><tok,…|->` for every universe name (`+` iff the module is a source). -/
+namespace Driver.C10
+open SamVerif.Incremental Driver
+
+abbrev St := State String Nat String String
+
+structure D where
+  defs : List (Nat × (Nat × List String)) := []
+  tab : List (String × List (String × String)) := []
+  univ : List String := []
+  st : Option St := none
+
+def lookupS {α} (l : List (String × α)) (k : String) : Option α := (l.find? (·.1 == k)).map (·.2)
+def lookupN {α} (l : List (Nat × α)) (k : Nat) : Option α := (l.find? (·.1 == k)).map (·.2)
+
+def callKey (univ : List String) (m : String) (c : Nat) (G : String → Option String) : String :=
+  let parts := univ.filterMap (fun k => (G k).map (fun sg => k ++ ">" ++ sg))
+  m ++ "/" ++ toString c ++ "/" ++ ";".intercalate parts
+
+def mkChecker (d : D) : Checker String Nat String String where
+  root := "@"
+  builtin := "!"
+  imports := fun c => match lookupN d.defs c with | some (_, is) => is | none => []
+  sig := fun m c => m ++ "~" ++ toString c
+  parseErrs := fun c => match lookupN d.defs c with
+    | some (n, _) => (List.range n).map (fun i => "P." ++ toString c ++ "." ++ toString i)
+    | none => []
+  check := fun m c G =>
+    let key := callKey d.univ m c G
+    match lookupS d.tab key with
+    | some r => r
+    | none => [(m, "CALL:" ++ key)]
+
+def parsePairs (sep : String) (ws : List String) : List (String × String) :=
+  ws.filterMap (fun w => match w.splitOn sep with
+    | [a, b] => some (a, b)
+    | _ => none)
+
+def dedup (l : List String) : List String := l.foldl (fun acc x => if acc.contains x then acc else acc ++ [x]) []
+
+def observe (d : D) (s : St) : String :=
+  " ".intercalate (d.univ.map (fun k =>
+    let es := dedup (getErrors s k)
+    k ++ "=" ++ (if (lookup s.sources k).isSome then "+" else "-") ++
+      (if es.isEmpty then "-" else ",".intercalate es)))
+
+/-- Boolean mirror of `RenameOk`. -/
+def renameOkB (ck : Checker String Nat String String) : St → List (String × String) → Bool
+  | _, [] => true
+  | s, p :: ps =>
+    ((lookup s.sources p.1).isNone || (lookup s.globalCx p.1).isSome) &&
+      renameOkB ck (renameOne ck (s, []) p).1 ps
+
+def stepLine (d : D) (line : String) : D × String :=
+  let ck := mkChecker d
+  match words line with
+  | ["def", cid, n, imps] =>
+    let is := if imps == "-" then [] else imps.splitOn ","
+    ({ d with defs := (cid.toNat!, (n.toNat!, is)) :: d.defs }, "ok")
+  | ["tab", key, val] =>
+    let r := if val == "-" then [] else parsePairs ":" (val.splitOn ",")
+    ({ d with tab := (key, r) :: d.tab }, "ok")
+  | "univ" :: ns => ({ d with univ := ns }, "ok")
+  | "new" :: kvs =>
+    let S : Sources String Nat := (parsePairs "=" kvs).map (fun p => (p.1, p.2.toNat!))
+    let s := fresh ck S
+    ({ d with st := some s }, observe d s)
+  | "upd" :: kvs =>
+    match d.st with
+    | none => (d, "no-state")
+    | some s =>
+      let s' := update ck s ((parsePairs "=" kvs).map (fun p => (p.1, p.2.toNat!)))
+      ({ d with st := some s' }, observe d s')
+  | "ren" :: kvs =>
+    match d.st with
+    | none => (d, "no-state")
+    | some s =>
+      let rens := parsePairs ":" kvs
+      if renameOkB ck s rens then
+        let s' := rename ck s rens
+        ({ d with st := some s' }, observe d s')
+      else ({ d with st := none }, "panic:unwrap")
+  | "rem" :: ms =>
+    match d.st with
+    | none => (d, "no-state")
+    | some s =>
+      let s' := remove ck s ms
+      ({ d with st := some s' }, observe d s')
+  | "aff" :: ms =>
+    match d.st with
+    | none => (d, "no-state")
+    | some s =>
+      let r := dedup (affectedSet ck s.sources ms)
+      (d, if r.isEmpty then "-" else ",".intercalate r)
+  | _ => (d, "bad-op")
+
+def run : IO Unit := runLoop ({} : D) stepLine
+
+end Driver.C10
+
 def main (_args : List String) : IO UInt32 := do
-  IO.eprintln "drv-c10: not implemented yet"
-  return 2
+  Driver.C10.run
+  return 0
